@@ -11,10 +11,12 @@ import (
 	"strconv"
 	"strings"
 	"sync"
+	"time"
 
 	"verifharness/drv"
 	"verifharness/evid"
 	"verifharness/lifecyc"
+	"verifharness/rec"
 	"verifharness/tlcrun"
 )
 
@@ -179,6 +181,19 @@ func init() {
 			lwg.Wait()
 		}
 		fmt.Printf("C20: Lmtp.tla %d states (no deadlock); %d LMTP backend programs run on the real server, %d hangs\n", lmc.Distinct, len(lcases), nhang)
+		// ---- no deadlock after a backend panic: whatever callback panics, the
+		// connection ends and Server.Close still returns (a lock left held by the
+		// panicking path would wedge it)
+		npanic := 0
+		for _, lm := range []bool{false, true} {
+			for _, cb := range []string{"NewSession", "Mail", "Rcpt", "Reset", "Data", "BDAT", "Logout"} {
+				npanic++
+				if msg := panicThenClose(cb, lm); msg != "" {
+					run.Report(evid.Div{Prop: "C20", Key: "deadlock-after-panic:" + cb, Msg: fmt.Sprintf("backend panic in %s (lmtp=%v): %s", cb, lm, msg), Replay: map[string]interface{}{"engine": "panic-close", "callback": cb, "lmtp": lm}})
+				}
+			}
+		}
+		fmt.Printf("C20: %d backend-panic scenarios followed by Server.Close\n", npanic)
 		// ---- race pass: the schedule families under the Go race detector
 		races, nsched, raceNote := racePass(tier, run.Seed)
 		for pair, rep := range races {
@@ -249,4 +264,65 @@ func tailText(s string, n int) string {
 		return s[len(s)-n:]
 	}
 	return s
+}
+
+// panicThenClose makes the backend panic in callback cb on a live connection,
+// then closes the server: the connection must end (or at least not hold up the
+// close) and Close and Serve must return.
+func panicThenClose(cb string, lmtp bool) string {
+	srv := drv.Start(drv.Cfg{LMTP: lmtp, MaxLine: 2000})
+	cn, err := srv.Dial()
+	if err != nil {
+		srv.Stop()
+		return "dial: " + err.Error()
+	}
+	cn.Output()
+	be := srv.BE
+	hello := "EHLO p.test\r\n"
+	if lmtp {
+		hello = "LHLO p.test\r\n"
+	}
+	be.Lock()
+	switch cb {
+	case "Data", "BDAT":
+		be.DataPlans = []rec.DataPlan{{Panic: true}}
+	default:
+		be.PanicIn = cb
+	}
+	be.Unlock()
+	script := map[string]string{
+		"NewSession": hello,
+		"Mail":       hello + "MAIL FROM:<a@x.test>\r\n",
+		"Rcpt":       hello + "MAIL FROM:<a@x.test>\r\nRCPT TO:<b@x.test>\r\n",
+		"Reset":      hello + "RSET\r\n",
+		"Data":       hello + "MAIL FROM:<a@x.test>\r\nRCPT TO:<b@x.test>\r\nDATA\r\nhi\r\n.\r\n",
+		"BDAT":       hello + "MAIL FROM:<a@x.test>\r\nRCPT TO:<b@x.test>\r\nBDAT 3 LAST\r\nhi\n",
+		"Logout":     hello + "QUIT\r\n",
+	}[cb]
+	cn.Send([]byte(script))
+	cn.WaitIdle() // (a wedged connection is found out by the close below)
+	done := make(chan error, 1)
+	go func() { done <- srv.S.Close() }()
+	select {
+	case <-done:
+	case <-time.After(3 * time.Second):
+		return "Server.Close did not return within 3 s:\n" + drv.GoroutineDump("go-smtp")
+	}
+	select {
+	case <-srv.ServeErr:
+	case <-time.After(3 * time.Second):
+		return "Serve did not return after Close"
+	}
+	// a second Close reports that the server is closed, without blocking
+	d2 := make(chan error, 1)
+	go func() { d2 <- srv.S.Close() }()
+	select {
+	case err := <-d2:
+		if err == nil {
+			return "a second Close returned nil"
+		}
+	case <-time.After(3 * time.Second):
+		return "a second Server.Close did not return within 3 s"
+	}
+	return ""
 }
